@@ -239,6 +239,13 @@ class Program:
     def mro(self, name: str) -> List[str]:
         """Linearised MRO by simple class name; external bases appear as names without ClassInfo.
         C3 where possible, falling back to DFS order (sufficient for this single-inheritance-ish package)."""
+        cache = self.__dict__.setdefault("_mro_cache", {})
+        if name in cache:
+            return cache[name]
+        cache[name] = r = self._mro(name)
+        return r
+
+    def _mro(self, name: str) -> List[str]:
         def lin(n, seen):
             if n in seen:
                 return [n]
